@@ -13,8 +13,12 @@ CONSTANTS
   BitWidth = 8
   AllowEmpty = TRUE
   AlwaysRow = TRUE
+  Plans = {<<2, 2>>}
   SampleDB = 0
   SampleMS = 0
+  SampleSeries = 3
+  SampleMatchers = 3
   OutFile = "prof_cases.json"
 INVARIANTS MechEqDefOnSafe MechSubset PerSeries
+CONSTRAINT PlanOK
 CHECK_DEADLOCK FALSE
